@@ -64,7 +64,24 @@ def main():
                 if re.fullmatch(r"[A-Za-z0-9_ .+*()]*", arg) and not re.search(r"\b(?!len\b)[a-z_][a-z0-9_]*\s*\(", arg):
                     continue
             followed += arg.count("size_hint") + sum(inits[t].count("size_hint") for t in tainted if re.search(r"\b%s\b" % t, arg))
-            c = re.search(r"\.min\(\s*([A-Za-z0-9_]+)\s*\)\s*$", arg) or re.search(r"^(?:[a-z:]*::)?min\(.*,\s*([A-Za-z0-9_]+)\s*\)$", arg)
+            # the argument with the locals that carry the declared length written out (a cap may sit in their initialiser)
+            expanded = arg
+            for _ in range(3):
+                for t in tainted:
+                    expanded = re.sub(r"\b%s\b" % t, "(" + " ".join(inits[t].split()) + ")", expanded)
+            while expanded.startswith("(") and expanded.endswith(")") and expanded.count("(") == expanded.count(")"):
+                inner = expanded[1:-1]
+                depth, ok = 0, True
+                for ch in inner:
+                    depth += ch == "("
+                    depth -= ch == ")"
+                    if depth < 0:
+                        ok = False
+                        break
+                if not ok:
+                    break
+                expanded = inner.strip()
+            c = re.search(r"\.min\(\s*([A-Za-z0-9_]+)\s*\)\s*$", expanded) or re.search(r"^(?:[a-z:]*::)?min\(.*,\s*([A-Za-z0-9_]+)\s*\)$", expanded)
             cap = None
             if c:
                 tok = c.group(1)
